@@ -105,6 +105,8 @@ struct Setup {
 struct Htlc {
     v: u64,
     cltv: u32,
+    /// identity of the payment hash within its direction (chosen by TLC; HTLCs may share it)
+    h: u64,
 }
 
 #[derive(Clone, Debug)]
@@ -177,7 +179,12 @@ fn setup_json(s: &Setup) -> Value {
            "push_msat": limbs(s.push_msat as u128), "hdelay": s.hdelay, "cdelay": s.cdelay})
 }
 fn parse_htlcs(v: &Value) -> Vec<Htlc> {
-    v.as_array().unwrap().iter().map(|h| Htlc { v: u64_of(&h["v"]), cltv: u32_of(&h["cltv"]) }).collect()
+    v.as_array()
+        .unwrap()
+        .iter()
+        .enumerate()
+        .map(|(i, h)| Htlc { v: u64_of(&h["v"]), cltv: u32_of(&h["cltv"]), h: h["h"].as_u64().unwrap_or(i as u64) })
+        .collect()
 }
 fn parse_req(v: &Value) -> Req {
     Req {
@@ -189,7 +196,7 @@ fn parse_req(v: &Value) -> Req {
     }
 }
 fn htlcs_json(h: &[Htlc]) -> Value {
-    Value::Array(h.iter().map(|x| json!({"v": limbs(x.v as u128), "cltv": limbs(x.cltv as u128)})).collect())
+    Value::Array(h.iter().map(|x| json!({"v": limbs(x.v as u128), "cltv": limbs(x.cltv as u128), "h": x.h})).collect())
 }
 fn req_json(r: &Req) -> Value {
     json!({"feerate": limbs(r.feerate as u128), "to_b": limbs(r.to_b as u128), "to_c": limbs(r.to_c as u128),
@@ -311,12 +318,13 @@ fn outcome(r: Result<Result<(), Status>, String>) -> (String, String, String) {
 }
 
 fn htlc_infos(hs: &[Htlc], tag: u8) -> Vec<HTLCInfo2> {
+    // the payment hash is a function of (direction, hash number): HTLCs with the same number
+    // in the same direction - of one commitment or of successive ones - share the hash
     hs.iter()
-        .enumerate()
-        .map(|(i, h)| {
+        .map(|h| {
             let mut b = [tag; 32];
-            b[0] = (i & 0xff) as u8;
-            b[1] = (i >> 8) as u8 + 1;
+            b[0] = (h.h & 0xff) as u8;
+            b[1] = ((h.h >> 8) & 0xff) as u8 + 1;
             HTLCInfo2 { value_sat: h.v, payment_hash: PaymentHash(b), cltv_expiry: h.cltv }
         })
         .collect()
@@ -346,11 +354,51 @@ fn payee() -> PublicKey {
 impl Ctx {
     /// outgoing HTLCs are payments: approve them the way a node does (keysend), so that the
     /// policy bounds are the only possible reason for a refusal
+    /// Parts of one payment share the hash: the payment is approved once, for the sum.
     fn approve(&self, outgoing: &[HTLCInfo2]) {
+        self.approve_sums(&Self::sums(outgoing));
+    }
+
+    fn sums(outgoing: &[HTLCInfo2]) -> Vec<(PaymentHash, u64)> {
+        let mut sums: Vec<(PaymentHash, u64)> = vec![];
         for h in outgoing {
-            let amt = h.value_sat.checked_mul(1000).unwrap_or(u64::MAX / 2);
-            let _ = catch(|| self.fx.node.add_keysend(payee(), h.payment_hash, amt));
+            match sums.iter_mut().find(|(p, _)| *p == h.payment_hash) {
+                Some((_, v)) => *v = v.saturating_add(h.value_sat),
+                None => sums.push((h.payment_hash, h.value_sat)),
+            }
         }
+        sums
+    }
+
+    fn approve_sums(&self, sums: &[(PaymentHash, u64)]) {
+        for (hash, v) in sums {
+            let amt = v.checked_mul(1000).unwrap_or(u64::MAX / 2);
+            let _ = catch(|| self.fx.node.add_keysend(payee(), *hash, amt));
+        }
+    }
+
+    /// the HTLCs of a request that are payments of this node
+    fn outgoing(side: &str, r: &Req) -> Vec<HTLCInfo2> {
+        if side == "cp" {
+            htlc_infos(&r.rcv, 0xD0)
+        } else {
+            htlc_infos(&r.off, 0xA0)
+        }
+    }
+
+    /// a history of several requests: a payment is approved once (an approval cannot be changed
+    /// afterwards), for the largest amount any request of the history has in flight for it
+    fn approve_history(&self, side: &str, reqs: &[&Req]) {
+        let mut all: Vec<(PaymentHash, u64)> = vec![];
+        for r in reqs {
+            for (p, v) in Self::sums(&Self::outgoing(side, r)) {
+                match all.iter_mut().find(|(q, _)| *q == p) {
+                    Some((_, w)) => *w = (*w).max(v),
+                    None => all.push((p, v)),
+                }
+            }
+        }
+        self.approve_sums(&all);
     }
 
     fn sign_cp(&self, n: u64, r: &Req) -> (String, String, String) {
@@ -623,8 +671,10 @@ fn run_case(ctxs: &mut HashMap<String, Ctx>, c: &Value) -> Value {
     })
 }
 
-/// kind "seq": open ; chain ; request1 ; the chain changes ; the same number again.  Its own
-/// context (the chain monitor is moved), nothing is snapshotted or shared.
+/// kind "seq": open ; chain ; request1 ; the chain changes ; the same number again - or, with
+/// seq.adv: open ; chain ; request1 (number n-1) ; it becomes current (revocation) ; the chain
+/// moves to seq.chain2 ; request (number n).  Its own context (the chain monitor is moved),
+/// nothing is snapshotted or shared.
 fn run_seq(c: &Value, pol: &Pol, setup: &Setup, n: u64, side: &str, req: &Req, pre_h: &Req, pre_c: &Req) -> Value {
     let req1 = parse_req(&c["seq"]["req1"]);
     let ctx = Ctx::new(pol, setup, &c["chain"], 1, &c["pre"]);
@@ -636,6 +686,7 @@ fn run_seq(c: &Value, pol: &Pol, setup: &Setup, n: u64, side: &str, req: &Req, p
     let n1 = if adv { n - 1 } else { n };
     let mut adv_res = "none".to_string();
     if ctx.setup_res.0 == "ok" && ctx.open_res.0 == "ok" {
+        ctx.approve_history(side, &[&req1, req]);
         let (r1, _) = ctx.request(side, n1, &req1);
         res1 = r1;
         if adv {
@@ -653,6 +704,8 @@ fn run_seq(c: &Value, pol: &Pol, setup: &Setup, n: u64, side: &str, req: &Req, p
                 };
                 adv_res = o.0.clone();
                 if o.0 == "ok" {
+                    // the chain may move while the first commitment is current
+                    ctx.chain_to(&c["chain"], &c["seq"]["chain2"]);
                     cstate2 = ctx.chain_state();
                     let (r2, k) = ctx.request(side, n, req);
                     res = r2;
